@@ -109,6 +109,9 @@ func (e *Env) judge(name string, obs []*Obs) ([]Failure, JudgeStats, error) {
 			enc := json.NewEncoder(f)
 			enc.SetEscapeHTML(false)
 			for _, o := range sh.recs {
+				if o.Hidden == nil {
+					o.Hidden = []string{}
+				}
 				if err := enc.Encode(o); err != nil {
 					sh.err = err
 					f.Close()
